@@ -428,6 +428,13 @@ def _ops():
     op("utils.paid_bs_adjustment_raw")(lambda e: (U.paid_bs_adjustment, (e.t, e.other()), {}))
     op("utils.reported_bs_adjustment")(lambda e: (U.reported_bs_adjustment, (claims(e.t),), {"annual_severity_trend": 0.05}))
     op("utils.reported_bs_adjustment_raw")(lambda e: (U.reported_bs_adjustment, (e.t,), {"annual_severity_trend": 0.05}))
+    # composition (round 8): the receiver is itself the output of the operation and already carries the weight column
+    op("utils.weight_geometric_decay_on_weighted")(lambda e: (U.weight_geometric_decay, (U.weight_geometric_decay(e.t, 0.9), 0.8),
+                                                               {"weight_as_field": e.rng.random() < 0.3,
+                                                                "basis": e.rng.choice(["evaluation", "experience"])}))
+    op("utils.weight_geometric_decay_on_weighted_explicit_fields")(lambda e: (
+        U.weight_geometric_decay, (U.weight_geometric_decay(e.t, 0.9), 0.8),
+        {"weight_as_field": False, "tri_fields": list(U.weight_geometric_decay(e.t, 0.9).fields)}))
     op("utils.weight_geometric_decay")(lambda e: (U.weight_geometric_decay, (e.t, 0.9), {"basis": e.rng.choice(["evaluation", "experience"]), "weight_as_field": e.rng.random() < 0.5}))
     op("utils.slice_roundtrip")(lambda e: (lambda t: U.slice_to_triangle(U.triangle_to_slice(t)), (e.t,), {}))
     # ---- writers
